@@ -99,7 +99,10 @@ def gen_history(r, ncycles, nops):
 
 
 def make_case(r, label, idx):
-    ops = gen_history(r, r.choice([2, 3, 5]), r.choice([20, 80, 200]))
+    return finish_case(gen_history(r, r.choice([2, 3, 5]), r.choice([20, 80, 200])), label, idx)
+
+
+def finish_case(ops, label, idx):
     d = os.path.join(C.scratch(), "img")
     os.makedirs(d, exist_ok=True)
     ops = [l.replace("@IMG", os.path.join(d, "%s-%d-" % (label, idx))) for l in ops]
@@ -123,9 +126,24 @@ def make_case(r, label, idx):
     return Case("cycles", ops, oracle, key=hash(tuple(ops)))
 
 
-def explore(ctx, h, drv, n, label):
+def make_trim_case(r, label, idx, mblocks, nrec, wal):
+    """trim at close with the file's last used block at every parity: metadata of `mblocks` 128-byte blocks (the only odd-sized
+    allocation of the store) in front of `nrec` records, close with trim, reopen (read-only or not), everything must be there"""
+    ops = ["open %d 1 0" % wal, "db 1 0", "mset 1 %s" % G.H(bytes(r.randrange(256) for _ in range(mblocks * 128 - r.choice([0, 1, 127]))))]
+    for j in range(nrec):
+        ops.append("put 1 %s 0 %s 0 0" % (G.H(b"k%05d" % j), G.H(G.gen_value(r, False))))
+    ops += ["dump 1", "close", "image @IMG0", "fsize", "open %d 0 %d 0" % (r.randrange(2), r.randrange(2)), "db 1 0", "dump 1"]
+    ops += ["get 1 %s 0" % G.H(b"k%05d" % j) for j in r.sample(range(nrec), min(nrec, 5))] + ["close", "image @IMG1", "fsize"]
+    return finish_case(ops, label, idx)
+
+
+def explore(ctx, h, drv, n, label, trim=0):
     r = C.Rng(ctx.seed, "c03/" + label)
     cases = [make_case(r, label, i) for i in range(n)]
+    if trim:
+        nrec, wal = r.choice([3, 40, 150]), r.randrange(2)
+        ctx.hist("trim-sweep:nrec=%d" % nrec)
+        cases += [make_trim_case(r, label, n + m, m, nrec if m % trim else r.choice([3, 40, 150]), wal) for m in range(1, 65)]
     for c in cases[:2]:
         ctx.sample(dict(kind="cycles", n_ops=len(c.ops), opens=[l for l in c.ops if l.startswith("open")][:6]))
     for c in cases:
@@ -157,7 +175,7 @@ def run(ctx):
     impl = C.build_impl("asan")
     h = C.build_harness(impl, *c01.HARNESS[:2], exclude=c01.HARNESS[2])
     drv = C.drv_path() if drv_ok else None
-    explore(ctx, h, drv, 60 if ctx.tier == "quick" else 1500, "main")
+    explore(ctx, h, drv, 60 if ctx.tier == "quick" else 1500, "main", trim=7)
     if (ctx.proof_broken or ctx.corr_broken) and not ctx.violations:
         explore(ctx, h, drv, 100, "search")
 
